@@ -232,6 +232,9 @@ def evict : (r : Req) → Inter M r → Inter M r
 /-- the fruit of one segment with composite eviction everywhere -/
 def collectSegEvict (r : Req) (docs : List Doc) : Inter M r := evict r (collect r docs)
 
+/-- the complete segment model: collect, cut the terms nodes (`harvest`), evict at the composite nodes -/
+def collectSegFull (r : Req) (docs : List Doc) : Inter M r := evict r (harvest r (collect r docs))
+
 /-- no terms node anywhere in the request: nothing is cut at segment level -/
 def Req.cutFree : Req → Bool
   | .none => true
